@@ -685,12 +685,23 @@ def hunkCombinedParents : State → Option MergeParents
   | .hunkZero (.combined mp false) | .hunkPlus (.combined mp false) => some mp
   | _ => none
 
+/-- `enter_merge_conflict`, first statement: a conflict region that is the first thing in a hunk
+finds the hunk header still pending and writes it (as `handle_hunk_line` would have) -/
+def mcPendingHeader (cfg : Cfg) (m : M) : Except String M :=
+  match m.st with
+  | .hunkHeader _ hh line raw src => emitHunkHeader cfg m hh line raw src
+  | _ => .ok m
+
 def handleMergeConflict : Handler := fun cfg m l =>
   if cfg.colorOnly ∨ ¬ cfg.mergeConflicts then .ok (false, m) else
   match hunkCombinedParents m.st with
   | some mp =>
     match parseMergeMarker l.text Markers.mcBegin with
-    | some c => .ok (true, { flushMP m with st := .mergeConflict mp .ours, mcNameOurs := some c, mcNameAnc := none })
+    | some c =>
+      match mcPendingHeader cfg m with
+      | .error e => .error e
+      | .ok m1 =>
+        .ok (true, { flushMP m1 with st := .mergeConflict mp .ours, mcNameOurs := some c, mcNameAnc := none })
     | none => .ok (false, m)
   | none =>
     match m.st with
